@@ -370,6 +370,28 @@ func (g *G) opRemove(ord int) {
 	}
 }
 
+// opDelete: the keeper's delete action on an indexed space (index, selection and files go)
+func (g *G) opDelete(ord int) {
+	if g.sk == nil {
+		return
+	}
+	for _, s := range g.indexed() {
+		if s.ord == ord {
+			sid := fmt.Sprintf("%x-%d", keyFor(ord).PubKey().SerializeCompressed(), s.bl)
+			err := g.sk.ActOnWorkSpace(sid, engine.Delete)
+			r := "ok"
+			if err != nil {
+				r = "err:delete"
+			}
+			g.h.Emit(fmt.Sprintf("delete %d", ord), r+" "+g.stateStr())
+			if err == nil {
+				g.lastOp, g.lastSel = "", "" // the world changed: the last request need not find the same selection again
+			}
+			return
+		}
+	}
+}
+
 // restart: a new keeper on the same directories; the same request must find the same selection and create nothing
 func (g *G) opRestartCheck() {
 	if g.sk == nil || g.lastOp == "" {
@@ -449,6 +471,9 @@ func (g *G) exec(t []string) {
 			req = append(req, blc{atoi(p[0]), atoi(p[1])})
 		}
 		g.opByBL(req)
+	case "delete":
+		o, _ := strconv.Atoi(t[1])
+		g.opDelete(o)
 	case "remove":
 		g.opRemove(atoi(t[1]))
 	case "restartcheck":
@@ -550,6 +575,13 @@ func (g *G) generate() {
 			for _, bl := range [][]int{{24}, {26}, {28}, {24, 26}, {24, 28}, {24, 26, 28}, {30}}[r.Intn(7)] {
 				req = append(req, blc{bl, r.Intn(4)})
 			}
+			if len(req) > 1 && r.Intn(3) == 0 {
+				// far beyond any free figure for the largest bit length, while the smaller ones would fit
+				req[len(req)-1].n = 1 << 20
+				if req[0].n == 0 {
+					req[0].n = 1 + r.Intn(3)
+				}
+			}
 			g.opByBL(req)
 		case 6:
 			// through the API: capacities in MiB around plot sizes and around the free figure
@@ -577,7 +609,11 @@ func (g *G) generate() {
 			g.opApiDirs(as)
 		case 8:
 			if idx := g.indexed(); len(idx) > 0 {
-				g.opRemove(idx[r.Intn(len(idx))].ord)
+				if r.Intn(3) == 0 {
+					g.opDelete(idx[r.Intn(len(idx))].ord)
+				} else {
+					g.opRemove(idx[r.Intn(len(idx))].ord)
+				}
 			}
 		case 9:
 			g.opRestartCheck()
